@@ -186,12 +186,35 @@ class InRamPolicySupporter(policy_supporter.PolicySupporter):
         vz.MetricType.OBJECTIVE):
       raise ValueError('Requires at least one objective metric.')
 
+    # Only completed, feasible trials that report every objective as a number
+    # can be optimal. (Comparing the NaN labels of the other trials would
+    # poison the comparisons below.)
+    objective_names = [
+        m.name
+        for m in self.study_config.metric_information.of_type(
+            vz.MetricType.OBJECTIVE
+        )
+    ]
+
+    def is_candidate(t: vz.Trial) -> bool:
+      if not t.is_completed or t.infeasible or t.final_measurement is None:
+        return False
+      metrics = t.final_measurement.metrics
+      return all(
+          name in metrics and not np.isnan(metrics[name].value)
+          for name in objective_names
+      )
+
+    candidates = [t for t in self.trials if is_candidate(t)]
+    if not candidates:
+      return []
+
     # Add safety warping and remove safety metrics from conversion.
     safety_checker = multimetric.SafetyChecker(
         self.study_config.metric_information
     )
     warped_trials = safety_checker.warp_unsafe_trials(
-        copy.deepcopy(self.trials)
+        copy.deepcopy(candidates)
     )
     config_without_safe = copy.deepcopy(self.study_config)
     config_without_safe.metric_information = (
@@ -202,19 +225,20 @@ class InRamPolicySupporter(policy_supporter.PolicySupporter):
         flip_sign_for_minimization_metrics=True,
         dtype=np.float32,
     )
+    labels = converter.to_labels(warped_trials)
 
     if self.study_config.is_single_objective:
+      labels = labels.reshape(-1)
+      if count is None:
+        # All tied top trials.
+        return [t for t, l in zip(candidates, labels) if l == labels.max()]
       # Single metric: Sort and take top N.
-      count = count or 1  # Defaults to 1.
-      labels = converter.to_labels(warped_trials).squeeze()
       sorted_idx = np.argsort(-labels)  # np.argsort sorts in ascending order.
-      return list(np.asarray(self.trials)[sorted_idx[:count]])
+      return [candidates[i] for i in sorted_idx[:count]]
     else:
       algorithm = multimetric.FastParetoOptimalAlgorithm()
-      is_optimal = algorithm.is_pareto_optimal(
-          points=converter.to_labels(warped_trials)
-      )
-      return list(np.asarray(self.trials)[is_optimal][:count])
+      is_optimal = algorithm.is_pareto_optimal(points=labels)
+      return [t for t, ok in zip(candidates, is_optimal) if ok][:count]
 
   def SetPriorStudy(
       self, study: vz.ProblemAndTrials, study_guid: Optional[str] = None
